@@ -46,9 +46,19 @@ const (
 	// VNil: set-style use - every value is nil and the loader is given ValuesLike: nil (with
 	// UnmarshalerUsesRegisteredTypes, as the repository's TestNilValues does); binary format only
 	VNil = "nil"
+	// VTags: a struct whose fields json decodes IN PLACE (a string slice that is omitted when empty, a map that is
+	// merged into): a decoder that reuses its target across entries leaks one entry's fields into the next
+	VTags = "tags"
 )
 
-var ValKinds = []string{VInt, VString, VBytes, VStruct, VLong, VIface, VPtr, VNil}
+// TV is the value type of VTags.
+type TV struct {
+	Name string
+	Tags []string          `json:",omitempty"`
+	Attr map[string]string `json:",omitempty"`
+}
+
+var ValKinds = []string{VInt, VString, VBytes, VStruct, VLong, VIface, VPtr, VNil, VTags}
 
 // SI is a struct value whose static type is comparable but whose dynamic contents are not.
 type SI struct {
@@ -361,6 +371,8 @@ func (c Config) ZeroVal() interface{} {
 		return SV{}
 	case VIface:
 		return SI{}
+	case VTags:
+		return TV{}
 	case VPtr:
 		return (*int)(nil)
 	case VNil:
@@ -398,6 +410,15 @@ func (c Config) MakeVal(n int) interface{} {
 	case VIface:
 		// the shape JSON gives back: []interface{} of float64 and string
 		return SI{A: fmt.Sprintf("i%d", n), X: []interface{}{float64(n), "x"}}
+	case VTags:
+		v := TV{Name: fmt.Sprintf("t%d", n)}
+		for i := 0; i < n%4; i++ {
+			v.Tags = append(v.Tags, fmt.Sprintf("tag%d.%d", n, i))
+		}
+		if n%3 == 1 {
+			v.Attr = map[string]string{fmt.Sprintf("k%d", n%5): "x"}
+		}
+		return v
 	case VPtr:
 		p := new(int)
 		*p = n
@@ -539,7 +560,8 @@ func (c Config) buildPool() []interface{} {
 			}
 		}
 		if c.Key == KInt64 {
-			out = append(out, int64(-1<<63), int64(1<<62), int64(1<<63-1))
+			// extremes (differences that overflow) and neighbours above 2^53 (which collapse when compared as float64)
+			out = append(out, int64(-1<<63), int64(1<<62), int64(1<<63-1), int64(1<<53), int64(1<<53+1), int64(1<<60+1), int64(1<<60+2), int64(-1<<60-1), int64(-1<<60-2))
 		}
 		return out
 	case KUint, KUint64:
@@ -552,7 +574,7 @@ func (c Config) buildPool() []interface{} {
 			}
 		}
 		if c.Key == KUint64 {
-			out = append(out, uint64(1<<53+1), uint64(1<<63), ^uint64(0), uint64(1<<63)+uint64(pw(2)))
+			out = append(out, uint64(1<<53), uint64(1<<53+1), uint64(1<<60+1), uint64(1<<60+2), uint64(1<<63), ^uint64(0), ^uint64(0)-1, uint64(1<<63)+uint64(pw(2)))
 		} else {
 			out = append(out, uint(1<<53+1), ^uint(0))
 		}
